@@ -69,6 +69,7 @@ def run(ctx):
     r144(ctx)
     r146(ctx)
     r147_uniform_bounds(ctx)
+    r1410_no_self_text_during_construction(ctx)
     # "drawing depends only on the distribution's parameters and its own stream": the stream's generator is its own, also for a stream that
     # was copied together with its distribution (shared rule with C12)
     from . import c12
@@ -461,3 +462,55 @@ def r147_uniform_bounds(ctx):
         if not ok:
             ctx.finding('R14.7', f'{c}.draw:bounds', ci, r, f'draw() = `{short(r.value, 70)}` has bounds {v}: ' + '; '.join(problems), where=f'{c}.draw')
     ctx.floor('R14.7', 'returns of DistUniform.draw', len(rs), 1)
+
+
+def r1410_no_self_text_during_construction(ctx):
+    """`Distribution.__init__` assigns the stream (through the stream setter) before the subclass constructors have stored their
+    parameters.  Anything on that path that renders the object itself -- `str(self)`, `repr(self)`, `f"{self}"`, `'%s' % self` -- calls the
+    subclass's `__str__`, which reads those parameters: construction of a valid distribution fails (also when the text is only wanted by a
+    log call that is switched on).  Read in the source as written (log calls are otherwise invisible to the rules)."""
+    prog = ctx.prog
+    ctx.rule('R14.10', 'nothing reachable from Distribution.__init__ renders `self` as text (the subclass parameters are not stored yet)')
+    mod = prog.modules['distributions']
+    raw = ast.parse(mod.src)
+    classes = {c.name: c for c in raw.body if isinstance(c, ast.ClassDef)}
+    base = classes.get('Distribution')
+    if base is None:
+        raise AnalysisError('anchor vanished: class Distribution')
+    methods = {m.name: m for m in base.body if isinstance(m, ast.FunctionDef)}
+    todo, seen = ['__init__'], set()
+    n = 0
+    while todo:
+        m = todo.pop()
+        if m in seen or m not in methods:
+            continue
+        seen.add(m)
+        fn = methods[m]
+        for x in ast.walk(fn):
+            if isinstance(x, ast.Call) and isinstance(x.func, ast.Attribute) and unparse(x.func.value) == 'self':
+                todo.append(x.func.attr)
+            elif isinstance(x, ast.Assign) and any(isinstance(t, ast.Attribute) and unparse(t.value) == 'self' for t in x.targets):
+                for t in x.targets:
+                    if isinstance(t, ast.Attribute):
+                        # a property setter of the same name runs
+                        for s_ in base.body:
+                            if isinstance(s_, ast.FunctionDef) and s_.name == t.attr and any(unparse(d).endswith('.setter') for d in s_.decorator_list):
+                                methods.setdefault('<setter>' + t.attr, s_)
+                                todo.append('<setter>' + t.attr)
+        for x in ast.walk(fn):
+            hit = None
+            if isinstance(x, ast.FormattedValue) and unparse(x.value) == 'self':
+                hit = x
+            elif isinstance(x, ast.Call) and unparse(x.func) in ('str', 'repr', 'format') and x.args and unparse(x.args[0]) == 'self':
+                hit = x
+            elif isinstance(x, ast.BinOp) and isinstance(x.op, ast.Mod) and isinstance(x.left, ast.Constant) and isinstance(x.left.value, str) \
+                    and any(unparse(y) == 'self' for y in ([x.right] if not isinstance(x.right, ast.Tuple) else x.right.elts)):
+                hit = x
+            if hit is not None:
+                n += 1
+                ctx.ob('R14.10', f'Distribution.{fn.name}:self-as-text', False, sample=f'Distribution.{fn.name}: `{short(hit, 40)}`')
+                ctx.finding('R14.10', f'Distribution.{fn.name}:self-as-text', prog.classes.get('Distribution'), hit,
+                            f'`{short(hit, 50)}` in Distribution.{fn.name} runs while Distribution.__init__ assigns the stream, before the subclass constructor has stored its '
+                            f'parameters: the subclass __str__ reads them and raises AttributeError, so a distribution with valid parameters cannot be constructed '
+                            f'(as soon as the text is actually built, e.g. with the module logger on DEBUG)', where=f'Distribution.{fn.name}', module=mod)
+    ctx.ob('R14.10', 'Distribution.__init__:reachable', True, sample=f'methods reachable from Distribution.__init__: {sorted(seen)}; renderings of self: {n}')
